@@ -60,7 +60,7 @@ class Gen:
             return ("mul", var(r.choice(vs)), var(r.choice(vs)))
         if t < 0.97:
             return ("pow", var(r.choice(vs)), 2)
-        return ("neg", self.expr(depth + 1))
+        return ("mul", const(-1), self.expr(depth + 1))      # unary minus of a compound term is not in Polar's grammar
 
     def atom(self):
         r = self.rng
@@ -149,14 +149,20 @@ class Gen:
     def program(self):
         r = self.rng
         init = []
-        for v in self.vars:
-            if self.random_stmts < 1 and r.random() < 0.25:
-                init.append(("assign", v, self.random_rhs()))
-            else:
-                init.append(("assign", v, det(const(self.small()))))
-        if self.use_b:
+        all_vars, use_b = self.vars, self.use_b
+        self.use_b = False
+        if use_b:
             init.append(("assign", "b", ("draw", ("bern", const(r.choice(DY))))))
             self.random_stmts += 1
+        for i, v in enumerate(all_vars):
+            self.vars = all_vars[:i]         # initial assignments read only what is already set
+            if i > 0 and self.random_stmts < 2 and r.random() < 0.25:
+                init.append(("assign", v, self.random_rhs()))
+            elif i > 0 and r.random() < 0.2:
+                init.append(("assign", v, det(self.expr(1))))
+            else:
+                init.append(("assign", v, det(const(self.small()))))
+        self.vars, self.use_b = all_vars, use_b
         if len(self.vars) >= 2 and r.random() < 0.2:
             xs = r.sample(self.vars, 2)
             init.append(("simult", [(xs[0], det(var(xs[1]))), (xs[1], det(var(xs[0])))]))
